@@ -36,7 +36,7 @@ var vfC14Manips = []string{
 	"untouched", "server-forgot", "client-forgot", "client-secret-bitflip", "server-secret-bitflip",
 	"client-secret-truncated", "server-secret-truncated", "server-secret-extended", "server-secrets-swapped",
 	"client-id-unknown", "client-secret-of-other-session", "tamper-clienthello", "tamper-serverhello",
-	"both-secrets-same-bitflip",
+	"both-secrets-same-bitflip", "server-miss-as-empty-session",
 }
 
 func vfC14Cfg(name, second string) vfCfg {
@@ -315,6 +315,12 @@ func vfC14Run(t *testing.T, res *vfResult, c vfC14Case) {
 	case "untouched":
 	case "server-forgot":
 		_ = sS.Del(orig.ID)
+	case "server-miss-as-empty-session":
+		// the server's store no longer has the session and reports a miss as an empty, non-nil Session; the client
+		// (anybody: it needs no secret) offers the id with an empty master secret
+		_ = sS.Del(orig.ID)
+		sS.EmptyMiss = true
+		_ = cS.Set([]byte(vfC14ClientKey), Session{ID: orig.ID, Secret: []byte{}})
 	case "client-forgot":
 		_ = cS.Del([]byte(vfC14ClientKey))
 	case "client-secret-bitflip":
@@ -442,6 +448,12 @@ func vfC14Run(t *testing.T, res *vfResult, c vfC14Case) {
 	// "a session on which an endpoint sent a fatal alert is no longer offered from that endpoint's store"
 	cPost := vfC14ClientEntry(cS)
 	usedOffered := len(c2.OfferedSID) > 0 && bytes.Equal(c2.AnsweredSID, c2.OfferedSID)
+	// "If the server does not know the session ... the endpoints fall back to a full handshake or fail": a server whose
+	// store holds no secret for the offered id never answers with that id (the start of an abbreviated handshake)
+	if usedOffered && len(sPre.Secret) == 0 && !tampered {
+		res.Violate("C14:server-resumes-session-it-does-not-know:"+c.Manip,
+			"the server's store held no secret for the offered session, yet its ServerHello accepted that session id: "+describe(), replay)
+	}
 	if c2.CErr != nil && c2.AlertsC > 0 && usedOffered {
 		res.Count("client_alerted_on_resumed_session", 1)
 		if bytes.Equal(cPost.ID, c2.OfferedSID) {
